@@ -30,20 +30,31 @@ Theorem C04_reload_persist : forall s, tasks (restart s) = tasks s /\ running (r
 Proof. exact reload_persist_id. Qed.
 Print Assumptions C04_reload_persist.
 
-(* same outcome — PARTIAL. Full statement: for every graph, every handler configuration and every checkpoint of every
-   schedule, the final status vector after a restart equals the one reached without it. Proved here on a COMPLETE FINITE
-   DOMAIN by computation: all chains of at most 3 tasks with any extra edges to earlier tasks, all 64 handler
-   configurations (which do handlers fail, which tasks have no undo handler), every one of the first 40 single steps of
-   the deterministic schedule as the crash point (a run takes fewer steps). Missing: the general induction (a confluence
-   argument), larger graphs. Outside chains the statement is false (next theorem). Beyond the domain it is monitored on
-   the implementation by the driver (chains of up to 5 tasks, a restart at every checkpoint in the thorough tier). *)
-Theorem C04_same_outcome_partial : forall x, In x same_outcome_domain -> same_outcome_ok x = true.
-Proof. exact same_outcome_bounded. Qed.
-Print Assumptions C04_same_outcome_partial.
+(* same outcome, every graph, every configuration, every continuation: in a state whose running handlers all belong to
+   tasks in Doing or Undoing - i.e. NO RUNNING TASK IS IN ABORT at the restart point - a restart followed by an Ensure pass
+   and any further events (more restarts included) gives exactly the tasks, statuses and set of running handlers that
+   the same Ensure pass and events give without the restart ([eqv]: same task list, same running set; the log of
+   handler starts is not compared: after a restart the running handlers are started again). By induction over the Ensure
+   pass (two passes side by side) and over the event list; no bound on the graph.
+   The baseline is the run without restart in which an Ensure pass happens at that moment (Ensure may run at any time:
+   State.EnsureBefore); the driver builds exactly that baseline on the real code. *)
+Theorem C04_same_outcome : forall c s evs, NoDup (map t_id (tasks s)) ->
+  (forall id, mem id (running s) = true -> status_of (tasks s) id = 3 \/ status_of (tasks s) id = 7) ->
+  eqv (run_events c s (ERestart :: EEnsure :: evs)) (run_events c s (EEnsure :: evs)).
+Proof. exact same_outcome. Qed.
+Print Assumptions C04_same_outcome.
 
-(* the restriction to chains matters: with two parallel failing tasks, a restart taken while the second one is in Abort
-   (aborted while its handler was running) gives Undone instead of Error for it: an Abort task is not run again after a
-   restart, it is undone directly (TaskRunner.Ensure -> tryUndo), so its own failure is never observed *)
+(* in addition, on a complete finite domain and against the fixed round policy itself (no Ensure inserted in the baseline):
+   all chains of at most 3 tasks with any extra edges to earlier tasks, all 64 handler configurations, every one of the
+   first 40 single steps of the deterministic schedule as the crash point: same final status vector *)
+Theorem C04_same_outcome_chains_bounded : forall x, In x same_outcome_domain -> same_outcome_ok x = true.
+Proof. exact same_outcome_bounded. Qed.
+Print Assumptions C04_same_outcome_chains_bounded.
+
+(* the guard of C04_same_outcome matters (KNOWN_FINDINGS key restart-with-task-in-abort, replayed on the implementation
+   on every run): with two parallel failing tasks, a restart taken while the second one is in Abort (aborted while its
+   handler was running) gives Undone instead of Error for it: an Abort task is not run again after a restart, it is
+   undone directly (TaskRunner.Ensure -> tryUndo), so its own failure is never observed *)
 Theorem C04_same_outcome_parallel_refuted :
   let g := [(1, []); (2, [])] in let c := mkCfg [1; 2] [] in
   statuses (settle 16 c (restart (iter 2 c (init g)))) <> statuses (settle 16 c (init g)).
@@ -58,3 +69,9 @@ Example C04_example :
   statuses s = [(1, 4); (2, 4); (3, 3)] /\ statuses f = [(1, 8); (2, 8); (3, 9)] /\
   count 1 false (log f) = 1 /\ count 3 false (log f) = 2 /\ count 1 true (log f) = 1.
 Proof. vm_compute. repeat split; reflexivity. Qed.
+
+(* non-vacuity of the hypotheses of C04_same_outcome: two parallel tasks, both running after the first Ensure pass *)
+Example C04_same_outcome_hypotheses_satisfiable :
+  let s := ensure (mkCfg [] []) (init [(1, []); (2, [])]) in
+  running s = [1; 2] /\ forallb (fun id => (status_of (tasks s) id =? 3) || (status_of (tasks s) id =? 7)) (running s) = true.
+Proof. vm_compute. split; reflexivity. Qed.
